@@ -54,7 +54,7 @@ func init() {
 	})
 	core.Register(&core.Spec{
 		ID: "C14", Engine: "node",
-		Run:       modelRun(nodeCfg{updW: 3, scrapeW: 12, restartW: 1, advW: 2, overlapW: 2, minOps: 4, maxOps: 40, failW: 3}),
+		Run:       modelRun(nodeCfg{updW: 3, scrapeW: 12, restartW: 1, advW: 2, overlapW: 2, minOps: 4, maxOps: 40, failW: 3, bigPayload: true}),
 		QuickRuns: 6000, ThorRuns: 300000, QuickCap: 60 * time.Second, ThorCap: 12 * time.Minute,
 		Rule: "a run is a drawn sequence of 4-40 operations on one real sidecar, mostly scrapes through the real proxy of payloads built from a drawn list of (metric name, label set) samples (so total and kept counts under the job's metric relabel rules are known by construction; kept = Prometheus' own relabel.Process per sample), with failures, several targets and jobs, updates and restarts; after every operation /status/, /runtimeinfo/ and /samples/?with_metrics_detail are compared with the model (series = floor(mean of last <=3 successful kept counts), total = last success, process = sum of totals, head = max(prometheus head, sum of series)); a case is (operation kinds mixed) x (final entry classes) x idle?",
 		Real: realNode, Stub: stubNode,
